@@ -647,7 +647,15 @@ def tensor_getattr(E, t, name, node=None):
     if name == "requires_grad":
         return t.requires_grad
     if name == "data":
-        return t
+        # `.data`: an alias of the same storage whose in-place updates do NOT bump the version counter (A-TORCH-NN)
+        from .tm_index import view_of
+
+        r = view_of(t, t.dtype, list(t.shape), lambda idx: list(idx), t.strides, identity=True)
+        r.attrs["data_alias"] = True
+        r.requires_grad = False
+        return r
+    if name == "_version":
+        return t.root().attrs.get("_version", 0)
     if name == "grad_fn" or name == "grad":
         return t.attrs.get(name)
     if name == "is_cuda":
